@@ -364,7 +364,7 @@ theorem filter_usable_eq_nil_iff (ids : List Identity) (h : ids.any malformed = 
 
 /-- the specification as a function of the identity list and the chain -/
 def specOf (ids : List Identity) (chain : List DN) : Bool :=
-  spec { identities := ids, chain := chain, minted := [] }
+  spec { identities := ids, chain := chain, minted := [], plugin := none }
 
 theorem spec_eq_specOf (i : Input) : spec i = specOf i.identities i.chain := by
   simp [specOf, spec, anyWild, anyMalformed, anyX509, leafValid, anyWithinLeaf, leafAttrs, leafOf]
